@@ -114,8 +114,18 @@ impl<H> HandlerVec<H> {
         &mut self,
         mut cb: impl FnMut(H) -> HandlerResult,
     ) -> HandlerResult {
-        // already-handled end tag handlers may be first, and they must not be removed
-        if let Some(first) = self.items.iter().position(|item| item.user_count > 0) {
+        // already-handled end tag handlers may be first, and they must not be removed.
+        // The active ones are normally the last ones (innermost open elements), so the first active
+        // item is searched from the back: it is where the counts seen add up to the total.
+        // Searching from the front would make closing deeply nested elements quadratic.
+        let mut remaining = self.user_count;
+        let first = self.items.iter().rposition(|item| {
+            remaining > 0 && item.user_count > 0 && {
+                remaining = remaining.saturating_sub(item.user_count);
+                remaining == 0
+            }
+        });
+        if let Some(first) = first {
             // Must drop everything after, as remove() would change indexes anyway, breaking locators.
             // rev() is for backwards-compat with previous implementation.
             for item in self.items.drain(first..).rev() {
